@@ -372,13 +372,8 @@ def check_decode(ctx, model, blobs, sp):
 
 
 def gen_params():
-    from tools import pygen
     # the model parameter sp follows the generated fact (falls back to strict)
-    try:
-        txt = open(C.COQ + "/gen/Gen_brine.v").read()
-        return "str_encode_surrogatepass : bool := true" in txt
-    except OSError:
-        return False
+    return C.gen_fact("brine", "str_encode_surrogatepass", default=False)
 
 
 def run(ctx):
